@@ -20,7 +20,7 @@ MIN_EVAL = {"quick": {"eq_matches_model": 1500, "ne_is_negation": 1500, "symmetr
 
 def cases(tier, seed):
     rng = np.random.default_rng([seed, 2020])
-    n = 80 if tier == "quick" else 1200
+    n = 80 if tier == "quick" else 10000
     for i in range(n):
         yield {"mesh": gen.random_mesh(rng, 60 if tier == "quick" else 300), "tseed": int(rng.integers(0, 10**6))}
 
